@@ -1306,8 +1306,18 @@ func selectorByFold(P *Program, ct *CodecType, fn *ssa.Function) (problems []str
 	if nnName == "" || subName == "" || fn == nil || len(fn.Params) != 3 {
 		return nil, false
 	}
+	// only the codec's own methods and plain helper functions are folded: the write buffer's methods and the
+	// sub-codec's methods stay calls
 	opaque := func(g *ssa.Function) bool {
-		return g.Signature.Recv() != nil && isWriteBufPtr(g.Signature.Recv().Type())
+		recv := g.Signature.Recv()
+		if recv == nil {
+			return false
+		}
+		rt := recv.Type()
+		if pt, ok := rt.Underlying().(*types.Pointer); ok {
+			rt = pt.Elem()
+		}
+		return !types.Identical(types.Unalias(rt), types.Unalias(ct.T))
 	}
 	seen := map[string]bool{}
 	add := func(s string) {
